@@ -60,6 +60,7 @@ type Exec struct {
 	AbstractMul bool
 	pool        *Pool
 	deadline    time.Time
+	chanCaps    map[*Object]*Term
 	Havoc       *HavocEnv
 	feasCalls   int
 	feasPruned  int
@@ -92,7 +93,7 @@ func (ex *Exec) Feasible(cond *Term) bool {
 
 func NewExec(prog *ssa.Program, b Bounds) *Exec {
 	return &Exec{ts: NewTS(), prog: prog, B: b, loops: map[*ssa.Function]*LoopInfo{}, active: map[*ssa.Function]int{},
-		globals: map[*ssa.Global]*Object{}, stubs: map[string]*ssa.Function{}, fnStats: map[string]int{}}
+		globals: map[*ssa.Global]*Object{}, stubs: map[string]*ssa.Function{}, fnStats: map[string]int{}, chanCaps: map[*Object]*Term{}}
 }
 
 func (ex *Exec) newObj(t types.Type, name string) *Object {
@@ -350,7 +351,7 @@ func (fr *Frame) runLoop(L *Loop, ins []Snap) (exits []exitRec) {
 			for i, s := range live {
 				gs[i] = s.G
 			}
-			ex.Obls = append(ex.Obls, Obligation{Kind: "unwind", Cond: ex.ts.Or(gs...),
+			ex.Obls = append(ex.Obls, Obligation{Kind: "unwind", Cond: ex.ts.And(ex.ts.Or(gs...), ex.concPrefix()),
 				Label: fmt.Sprintf("loop unwinding bound %d exceeded", ex.B.Unwind), Fn: fr.fn.String(), Pos: ex.pos(L.header.Instrs[0])})
 			return
 		}
@@ -395,7 +396,7 @@ func (ex *Exec) callFunction(fn *ssa.Function, args []Value, bind []Value, heap 
 		return ex.zeroResults(fn.Signature), heap
 	}
 	if ex.active[fn] >= ex.B.CallDepth {
-		ex.Obls = append(ex.Obls, Obligation{Kind: "unwind", Cond: pc,
+		ex.Obls = append(ex.Obls, Obligation{Kind: "unwind", Cond: ex.ts.And(pc, ex.concPrefix()),
 			Label: fmt.Sprintf("recursion bound %d exceeded", ex.B.CallDepth), Fn: fn.String()})
 		return ex.zeroResults(fn.Signature), heap
 	}
@@ -528,7 +529,7 @@ func (fr *Frame) execBlock(b *ssa.BasicBlock, ins []Snap) []outEdge {
 			fr.rets = append(fr.rets, retRec{fr.pc, fr.heap, v})
 			return nil
 		case *ssa.Panic:
-			ex.Obls = append(ex.Obls, Obligation{Kind: "panic", Cond: fr.pc, Label: "explicit panic", Pos: ex.pos(i), Fn: fr.fn.String()})
+			ex.Obls = append(ex.Obls, Obligation{Kind: "panic", Cond: ex.ts.And(fr.pc, ex.concPrefix()), Label: "explicit panic", Pos: ex.pos(i), Fn: fr.fn.String()})
 			return nil
 		default:
 			fr.instr(in)
@@ -538,7 +539,7 @@ func (fr *Frame) execBlock(b *ssa.BasicBlock, ins []Snap) []outEdge {
 }
 
 func (fr *Frame) panicIf(cond *Term, in ssa.Instruction, label string) {
-	c := fr.ex.ts.And(fr.pc, cond)
+	c := fr.ex.ts.And(fr.pc, cond, fr.ex.concPrefix())
 	if c.IsFalse() {
 		return
 	}
@@ -607,9 +608,16 @@ func (fr *Frame) load(p *VPtr, in ssa.Instruction, typ types.Type) Value {
 		return fr.ex.zero(typ)
 	}
 	n := len(p.Alts)
-	v := navigate(fr.heapGet(p.Alts[n-1].Obj), p.Alts[n-1].Path)
+	get := func(a PtrAlt) Value {
+		own := navigate(fr.heapGet(a.Obj), a.Path)
+		if ex.Conc != nil {
+			return ex.concLoad(fr, a, own, in)
+		}
+		return own
+	}
+	v := get(p.Alts[n-1])
 	for i := n - 2; i >= 0; i-- {
-		v = ex.merge(p.Alts[i].G, navigate(fr.heapGet(p.Alts[i].Obj), p.Alts[i].Path), v)
+		v = ex.merge(p.Alts[i].G, get(p.Alts[i]), v)
 	}
 	return v
 }
@@ -622,6 +630,9 @@ func (fr *Frame) store(p *VPtr, val Value, in ssa.Instruction) {
 	single := len(p.Alts) == 1
 	for _, a := range p.Alts {
 		g := a.G
+		if ex.Conc != nil {
+			ex.concStore(fr, a, g, val, in)
+		}
 		fr.heap[a.Obj] = update(fr.heapGet(a.Obj), a.Path, func(old Value) Value {
 			if single {
 				return val
